@@ -11,3 +11,422 @@ func AcceptKey(key string) string {
 	s := sha1.Sum([]byte(key + "258EAFA5-E914-47DA-95CA-C5AB0DC85B11"))
 	return base64.StdEncoding.EncodeToString(s[:])
 }
+
+func isTchar(b byte) bool {
+	switch {
+	case b >= '0' && b <= '9', b >= 'a' && b <= 'z', b >= 'A' && b <= 'Z':
+		return true
+	}
+	switch b {
+	case '!', '#', '$', '%', '&', '\'', '*', '+', '-', '.', '^', '_', '`', '|', '~':
+		return true
+	}
+	return false
+}
+
+// IsToken reports whether s is a non-empty RFC 7230 token.
+func IsToken(s string) bool {
+	if s == "" {
+		return false
+	}
+	for i := 0; i < len(s); i++ {
+		if !isTchar(s[i]) {
+			return false
+		}
+	}
+	return true
+}
+
+func trimOWS(s string) string {
+	for len(s) > 0 && (s[0] == ' ' || s[0] == '\t') {
+		s = s[1:]
+	}
+	for len(s) > 0 && (s[len(s)-1] == ' ' || s[len(s)-1] == '\t') {
+		s = s[:len(s)-1]
+	}
+	return s
+}
+
+// TokenList parses the field lines of a 1#token header (RFC 7230 section 7).
+// clean is false if any line contains an empty element or an element that is
+// not a token (the statement of the properties does not classify such lines).
+func TokenList(lines []string) (tokens []string, clean bool) {
+	clean = true
+	for _, line := range lines {
+		start := 0
+		for i := 0; i <= len(line); i++ {
+			if i == len(line) || line[i] == ',' {
+				el := trimOWS(line[start:i])
+				start = i + 1
+				if !IsToken(el) {
+					clean = false
+					continue
+				}
+				tokens = append(tokens, el)
+			}
+		}
+	}
+	return tokens, clean
+}
+
+// EqualFoldASCII compares with ASCII-only case folding.
+func EqualFoldASCII(a, b string) bool {
+	if len(a) != len(b) {
+		return false
+	}
+	for i := 0; i < len(a); i++ {
+		x, y := a[i], b[i]
+		if x >= 'A' && x <= 'Z' {
+			x += 'a' - 'A'
+		}
+		if y >= 'A' && y <= 'Z' {
+			y += 'a' - 'A'
+		}
+		if x != y {
+			return false
+		}
+	}
+	return true
+}
+
+// HasToken reports whether the token list contains want (ASCII case-insensitively).
+func HasToken(tokens []string, want string) bool {
+	for _, t := range tokens {
+		if EqualFoldASCII(t, want) {
+			return true
+		}
+	}
+	return false
+}
+
+// Ext is one parsed extension offer/announcement.
+type Ext struct {
+	Name   string
+	Params map[string]string
+}
+
+// ParseExtensions parses Sec-WebSocket-Extensions lines per RFC 6455 section
+// 9.1 (extension-list = 1#extension; extension = token *( ";" param ); param =
+// token [ "=" (token | quoted-string) ]).  clean is false when any line does
+// not match the grammar exactly.
+func ParseExtensions(lines []string) (exts []Ext, clean bool) {
+	clean = true
+	for _, line := range lines {
+		for _, el := range splitOutsideQuotes(line, ',') {
+			el = trimOWS(el)
+			parts := splitOutsideQuotes(el, ';')
+			name := trimOWS(parts[0])
+			if !IsToken(name) {
+				clean = false
+				continue
+			}
+			e := Ext{Name: name, Params: map[string]string{}}
+			ok := true
+			for _, p := range parts[1:] {
+				p = trimOWS(p)
+				k, v, has := cutByte(p, '=')
+				k = trimOWS(k)
+				if !IsToken(k) {
+					ok = false
+					break
+				}
+				if has {
+					v = trimOWS(v)
+					if len(v) >= 2 && v[0] == '"' && v[len(v)-1] == '"' {
+						uq, good := unquote(v)
+						if !good || !IsToken(uq) {
+							ok = false
+							break
+						}
+						v = uq
+					} else if !IsToken(v) {
+						ok = false
+						break
+					}
+				}
+				e.Params[k] = v
+			}
+			if !ok {
+				clean = false
+				continue
+			}
+			exts = append(exts, e)
+		}
+	}
+	return exts, clean
+}
+
+func cutByte(s string, b byte) (string, string, bool) {
+	for i := 0; i < len(s); i++ {
+		if s[i] == b {
+			return s[:i], s[i+1:], true
+		}
+	}
+	return s, "", false
+}
+
+func splitOutsideQuotes(s string, sep byte) []string {
+	var out []string
+	inq, esc := false, false
+	start := 0
+	for i := 0; i < len(s); i++ {
+		c := s[i]
+		switch {
+		case esc:
+			esc = false
+		case inq && c == '\\':
+			esc = true
+		case c == '"':
+			inq = !inq
+		case c == sep && !inq:
+			out = append(out, s[start:i])
+			start = i + 1
+		}
+	}
+	return append(out, s[start:])
+}
+
+func unquote(s string) (string, bool) {
+	s = s[1 : len(s)-1]
+	var out []byte
+	esc := false
+	for i := 0; i < len(s); i++ {
+		c := s[i]
+		switch {
+		case esc:
+			out = append(out, c)
+			esc = false
+		case c == '\\':
+			esc = true
+		case c == '"':
+			return "", false
+		default:
+			out = append(out, c)
+		}
+	}
+	return string(out), !esc
+}
+
+// RawResponse is a strictly parsed HTTP/1.1 response head.
+type RawResponse struct {
+	Proto, Status, Reason string
+	Code                  int
+	Names                 []string // field names in order, as written
+	Values                []string
+	Rest                  []byte // bytes after the blank line
+}
+
+// ParseResponseStrict parses a response head: lines end with CRLF, no bare CR
+// or LF anywhere in the head, one blank line ends it.
+func ParseResponseStrict(b []byte) (*RawResponse, error) {
+	end := indexBytes(b, []byte("\r\n\r\n"))
+	if end < 0 {
+		return nil, errString("no blank line terminating the response head")
+	}
+	head := string(b[:end])
+	r := &RawResponse{Rest: b[end+4:]}
+	lines := splitCRLF(head)
+	for _, l := range lines {
+		for i := 0; i < len(l); i++ {
+			if l[i] == '\r' || l[i] == '\n' {
+				return nil, errString("bare CR or LF inside a header line: " + quoteShort(l))
+			}
+		}
+	}
+	sl := lines[0]
+	p1, rest, ok := cutByte(sl, ' ')
+	if !ok {
+		return nil, errString("malformed status line " + quoteShort(sl))
+	}
+	r.Proto = p1
+	code, reason, _ := cutByte(rest, ' ')
+	r.Status, r.Reason = code, reason
+	if len(code) != 3 {
+		return nil, errString("malformed status code " + quoteShort(code))
+	}
+	for i := 0; i < 3; i++ {
+		if code[i] < '0' || code[i] > '9' {
+			return nil, errString("malformed status code " + quoteShort(code))
+		}
+		r.Code = r.Code*10 + int(code[i]-'0')
+	}
+	for _, l := range lines[1:] {
+		name, val, ok := cutByte(l, ':')
+		if !ok || !IsToken(name) {
+			return nil, errString("malformed header line " + quoteShort(l))
+		}
+		r.Names = append(r.Names, name)
+		r.Values = append(r.Values, trimOWS(val))
+	}
+	return r, nil
+}
+
+// Get returns the values of a field (ASCII case-insensitive name).
+func (r *RawResponse) Get(name string) []string {
+	var out []string
+	for i, n := range r.Names {
+		if EqualFoldASCII(n, name) {
+			out = append(out, r.Values[i])
+		}
+	}
+	return out
+}
+
+type errString string
+
+func (e errString) Error() string { return string(e) }
+
+func quoteShort(s string) string {
+	if len(s) > 60 {
+		s = s[:60] + "…"
+	}
+	out := make([]byte, 0, len(s)+2)
+	out = append(out, '"')
+	for i := 0; i < len(s); i++ {
+		c := s[i]
+		if c < 32 || c > 126 {
+			const hex = "0123456789abcdef"
+			out = append(out, '\\', 'x', hex[c>>4], hex[c&15])
+		} else {
+			out = append(out, c)
+		}
+	}
+	return string(append(out, '"'))
+}
+
+func indexBytes(b, sep []byte) int {
+	for i := 0; i+len(sep) <= len(b); i++ {
+		j := 0
+		for j < len(sep) && b[i+j] == sep[j] {
+			j++
+		}
+		if j == len(sep) {
+			return i
+		}
+	}
+	return -1
+}
+
+func splitCRLF(s string) []string {
+	var out []string
+	start := 0
+	for i := 0; i+1 < len(s); i++ {
+		if s[i] == '\r' && s[i+1] == '\n' {
+			out = append(out, s[start:i])
+			start = i + 2
+			i++
+		}
+	}
+	return append(out, s[start:])
+}
+
+// ValidKey reports the status of a Sec-WebSocket-Key value: 1 = canonical
+// base64 of exactly 16 bytes, 0 = clearly not base64 of 16 bytes, -1 =
+// unspecified (decodes to 16 bytes only under a lenient reading: non-zero
+// padding bits, embedded CR/LF).
+func ValidKey(s string) int {
+	const alpha = "ABCDEFGHIJKLMNOPQRSTUVWXYZabcdefghijklmnopqrstuvwxyz0123456789+/"
+	idx := func(c byte) int {
+		for i := 0; i < 64; i++ {
+			if alpha[i] == c {
+				return i
+			}
+		}
+		return -1
+	}
+	for i := 0; i < len(s); i++ {
+		if s[i] == '\r' || s[i] == '\n' {
+			return -1
+		}
+	}
+	if len(s) != 24 || s[22] != '=' || s[23] != '=' {
+		return 0
+	}
+	for i := 0; i < 22; i++ {
+		if idx(s[i]) < 0 {
+			return 0
+		}
+	}
+	if idx(s[21])&0x0f != 0 {
+		return -1 // non-canonical trailing bits
+	}
+	return 1
+}
+
+// OriginHostPort extracts host[:port] from an Origin value following RFC 3986
+// generic syntax: [scheme ":"] "//" authority [path] ["?" query] ["#" fragment],
+// authority = [userinfo "@"] host [":" port] with the userinfo ending at the
+// LAST "@", percent-escapes in the host decoded.  ok is false when the value
+// has no authority component or a malformed escape.
+func OriginHostPort(origin string) (hostport string, ok bool) {
+	s := origin
+	if i := indexAny(s, "#"); i >= 0 {
+		s = s[:i]
+	}
+	// scheme
+	if len(s) > 0 && isAlpha(s[0]) {
+		i := 1
+		for i < len(s) && (isAlpha(s[i]) || (s[i] >= '0' && s[i] <= '9') || s[i] == '+' || s[i] == '-' || s[i] == '.') {
+			i++
+		}
+		if i < len(s) && s[i] == ':' {
+			s = s[i+1:]
+		}
+	}
+	if len(s) < 2 || s[0] != '/' || s[1] != '/' {
+		return "", false
+	}
+	s = s[2:]
+	if i := indexAny(s, "/?"); i >= 0 {
+		s = s[:i]
+	}
+	for i := len(s) - 1; i >= 0; i-- {
+		if s[i] == '@' {
+			s = s[i+1:]
+			break
+		}
+	}
+	// percent-decode
+	out := make([]byte, 0, len(s))
+	for i := 0; i < len(s); i++ {
+		if s[i] == '%' {
+			if i+2 >= len(s) {
+				return "", false
+			}
+			h, l := unhexNib(s[i+1]), unhexNib(s[i+2])
+			if h < 0 || l < 0 {
+				return "", false
+			}
+			out = append(out, byte(h<<4|l))
+			i += 2
+			continue
+		}
+		out = append(out, s[i])
+	}
+	return string(out), true
+}
+
+func unhexNib(c byte) int {
+	switch {
+	case c >= '0' && c <= '9':
+		return int(c - '0')
+	case c >= 'a' && c <= 'f':
+		return int(c-'a') + 10
+	case c >= 'A' && c <= 'F':
+		return int(c-'A') + 10
+	}
+	return -1
+}
+
+func isAlpha(c byte) bool { return (c >= 'a' && c <= 'z') || (c >= 'A' && c <= 'Z') }
+
+func indexAny(s, chars string) int {
+	for i := 0; i < len(s); i++ {
+		for j := 0; j < len(chars); j++ {
+			if s[i] == chars[j] {
+				return i
+			}
+		}
+	}
+	return -1
+}
